@@ -262,8 +262,11 @@ pub fn validate_tree(ctx: &mut Ctx, pfx: &str, lang: &Lang, tree: &Tree, text: &
             if bom && i < 3 {
                 continue;
             }
+            // a byte order mark cut by an included range or by an edit: the lexer decides about the mark from bytes
+            // outside the range, and a re-parse keeps the old decision (known finding)
+            let cut_bom = i < 3 && text.bytes[0] == 0xEF && ranges.is_some();
             ctx.fail(
-                format!("{pfx}:tiling:uncovered"),
+                format!("{pfx}:tiling:uncovered{}", if cut_bom { ":cut_byte_order_mark" } else { "" }),
                 format!(
                     "[{stage}] lang={} ranges={:?} byte {i} (0x{b:02x}) is in no leaf and is not skippable; text={:?}\ntree={}",
                     lang.name,
